@@ -2,7 +2,8 @@
 from vlib import *
 from gens import *
 LEVEL = 'model_checking'
-BIG = [0, 1, 31, 32, 33, 64, (1 << 29) - 1, 1 << 29, (1 << 29) + 1, (1 << 32) + 32, (1 << 64) - 1]
+# declared lengths: around 32, and where the 32-bit BIT count crosses each of its bytes (32, 8192, 2^21 bytes), the 2^29 clamp, beyond 2^32
+BIG = [0, 1, 31, 32, 33, 64, 8191, 8192, 8193, 65536, (1 << 21) - 1, 1 << 21, (1 << 24) + 3, (1 << 29) - 1, 1 << 29, (1 << 29) + 1, (1 << 32) + 32, (1 << 64) - 1]
 
 def gen(c):
     rng = c.rng; th = c.tier == 'thorough'
